@@ -80,10 +80,12 @@ fn parse_uri(buf: &[u8]) -> Result<(RequestUri<'_>, &[u8]), HttpParsingError> {
     let origin_form = match *buf.first().ok_or(UnexpectedEof)? {
         b'/' => true,
         b'*' => {
-            return Ok((
-                RequestUri::new("*", 0, 1),
-                buf.get(1..).ok_or(MalformedStatusLine)?,
-            ));
+            // asterisk-form: "*" followed by the SP that ends the target
+            return match buf.get(1) {
+                Some(b' ') => Ok((RequestUri::new("*", 0, 1), &buf[2..])),
+                Some(_) => Err(MalformedStatusLine),
+                None => Err(UnexpectedEof),
+            };
         }
         _ => false,
     };
